@@ -183,9 +183,54 @@ class Ob:
             m = model_dict(s.model())
             self.cex.append({'ob': self.oid, 'label': label, 'role': role or self.role, 'model': m, 'replay': replay})
             return 'sat'
+        why = s.reason_unknown()
+        v2, how = self._escalate(s, label, timeout)
+        self.solver_s += time.time() - t - dt
+        if v2 == 'unsat':
+            self.unsat += 1
+            self.escalated = getattr(self, 'escalated', 0) + 1
+            if self.escalated <= 5: self.notes.append(f'first attempt {why} after {dt:.0f}s; decided unsat by {how}: {label}')
+            return 'unsat'
         self.unknown += 1
-        self.notes.append(f'UNKNOWN {label} ({s.reason_unknown()})')
+        self.notes.append(f'UNKNOWN {label} ({why}; escalation: {how})')
         return 'unknown'
+
+    def _escalate(self, s, label, timeout):
+        """a timeout / unknown of the first attempt is never a pass and should not be a spurious exit 2 on a loaded machine either:
+        (1) retry in-process with other random seeds and 3x the time, (2) hand the SMT-LIB text to z3 4.8.12 and cvc5 1.0 side by side.
+        Only an `unsat` is accepted from the ladder; a `sat` of an external solver has no model to replay and stays UNDECIDED."""
+        if os.environ.get('VERIF_NO_ESCALATE'): return 'unknown', 'disabled'
+        tried = []
+        for seed in (7, 1234):
+            s2 = z3.Solver(); s2.set('timeout', int(timeout * 3)); s2.set('random_seed', seed)
+            try: s2.set('smt.random_seed', seed)
+            except Exception: pass
+            s2.add(s.assertions())
+            t = time.time(); res = s2.check(); tried.append(f'z3 seed {seed}: {res} {time.time() - t:.0f}s')
+            if res == z3.unsat: return 'unsat', tried[-1]
+            if res == z3.sat: return 'unknown', '; '.join(tried) + ' (sat on retry: undecided)'
+        try:
+            os.makedirs(os.path.join(CACHE, 'unknown'), exist_ok=True)
+            path = os.path.join(CACHE, 'unknown', re.sub(r'[^A-Za-z0-9_.-]', '_', f'{self.oid}-{self.queries}-{os.getpid()}') + '.smt2')
+            with open(path, 'w') as fh: fh.write('(set-logic ALL)\n' + s.to_smt2())
+            lim = max(300, int(timeout / 1000 * 4))
+            procs = {'z3-4.8.12': subprocess.Popen(['/usr/bin/z3', f'-T:{lim}', path], stdout=subprocess.PIPE, stderr=subprocess.DEVNULL, text=True),
+                     'cvc5-1.0': subprocess.Popen(['cvc5', '--lang', 'smt2', f'--tlimit={lim * 1000}', path], stdout=subprocess.PIPE, stderr=subprocess.DEVNULL, text=True)}
+            t = time.time(); verdicts = {}
+            while procs and time.time() - t < lim + 10:
+                for k, p in list(procs.items()):
+                    if p.poll() is not None:
+                        out = p.stdout.read(); verdicts[k] = 'error' if '(error' in out else (out.strip().splitlines() or ['unknown'])[0]; del procs[k]
+                        if verdicts[k] == 'unsat':
+                            for q in procs.values(): q.kill()
+                            os.remove(path)
+                            return 'unsat', '; '.join(tried) + f'; {k}: unsat {time.time() - t:.0f}s'
+                time.sleep(0.2)
+            for q in procs.values(): q.kill()
+            tried.append(f'external: {verdicts} (query kept at {path})')
+        except Exception as ex:
+            tried.append(f'external solvers failed: {ex}')
+        return 'unknown', '; '.join(tried)
 
     def _second_opinion(self, s, label):
         """thorough tier: a sample of the z3 `unsat` verdicts per obligation is re-decided by cvc5 on the emitted SMT-LIB text;
